@@ -52,3 +52,19 @@ Fixpoint enc (is_ml : bool) (seq : N) (s : bytes) : bytes :=
            else b :: enc is_ml 0 r
          end
   end.
+
+(* executable round-trip checks used by the Examples of Props/C10.v and by scratch testing *)
+Definition all_vstyles : list vstyle :=
+  [StDefault; StLiteral; StMlLiteral; StBasicPretty; StMlBasicPretty; StBasic; StMlBasic].
+Definition all_kstyles : list kstyle := [KDefault; KUnquoted; KLiteral; KBasicPretty; KBasic].
+
+Definition rt_value_ok (s : bytes) : bool :=
+  forallb (fun st => match write_string st s with
+                     | None => true
+                     | Some t => match string_ (new_input t) with
+                                 | Ok s' i => bytes_eqb s s' && match rest i with [] => true | _ => false end
+                                 | _ => false
+                                 end
+                     end) all_vstyles.
+Definition offered_v (s : bytes) : list bool :=
+  map (fun st => match write_string st s with Some _ => true | None => false end) all_vstyles.
